@@ -300,6 +300,80 @@ def build_trace(job):
     return {"name": f"{mname}_G{group}_l{ell}", "params": params, "events": B.events}
 
 
+def build_g12(job):
+    """The degree-12 curve E(Fp12) at full size: generators twist(G2) and the image of G1; the trace labels
+    twist(k G2) as k * twist(G2) and cast(k G1) as k * cast(G1), so the twist / cast homomorphisms are part of
+    what 'equal abstract <=> equal id' demands."""
+    mname, seed, tier = job
+    pkg, fam, curve = SPECS[mname]
+    m = importlib.import_module(pkg)
+    pm = importlib.import_module(pkg + "." + ("bn128_pairing" if mname == "bn128" else "bls12_381_pairing" if mname == "bls12_381"
+                                               else "optimized_pairing"))
+    ref = importlib.import_module("py_ecc.bn128" if curve == "bn" else "py_ecc.bls12_381")
+    rng = random.Random(seed)
+    quick = tier == "quick"
+    r = m.curve_order
+    regs, events, ids = [], [], {"INF": 0}
+
+    def aff(P):
+        if fam == "ref":
+            return "INF" if P is None else (coeffs(P[0]), coeffs(P[1]))
+        x, y, z = (ref.FQ12(list(coeffs(c))) for c in P)         # projection through the OTHER family's division
+        if not any(coeffs(z)):
+            return "INF"
+        return (coeffs(x / z), coeffs(y / z))
+
+    def ev(**kw):
+        e = {"op": "", "d": 0, "a": 0, "b": 0, "n": [], "sg": 1, "id": 0, "id2": 0, "res": -1, "exc": ""}
+        e.update(kw)
+        events.append(e)
+
+    def prod(op, fn, a=0, b=0, n=None):
+        try:
+            P = fn()
+            k = aff(P)
+            if k not in ids:
+                ids[k] = len(ids)
+            i = ids[k]
+        except Exception as ex:  # noqa: BLE001
+            ev(op=op, a=a, b=b, exc=f"EXC:{type(ex).__name__}:{ex}"[:120])
+            raise
+        regs.append(P)
+        ev(op=op, d=len(regs), a=a, b=b, n=limbs(abs(n)) if n is not None else [], id=i)
+        return len(regs)
+    try:
+        g = prod("gen", lambda: m.G12)
+        t = prod("tor", lambda: pm.cast_point_to_fq12(m.G1))
+        o = prod("inf", lambda: (m.Z1 if fam == "ref" else (m.FQ12.one(), m.FQ12.one(), m.FQ12.zero())))
+        ks = [2, 3, r - 1, r, rng.randrange(1, r)] + ([] if quick else [r + 1, rng.getrandbits(300)])
+        pool = [g, t, o]
+        for k in ks[: (3 if quick else len(ks))]:
+            pool.append(prod("mul", lambda: m.multiply(regs[g - 1], k), a=g, n=k))
+            pool.append(prod("mul", lambda: m.twist(m.multiply(m.G2, k)), a=g, n=k))            # twist(k G2)
+            pool.append(prod("mul", lambda: pm.cast_point_to_fq12(m.multiply(m.G1, k)), a=t, n=k))   # cast(k G1)
+        pool.append(prod("mul", lambda: m.multiply(regs[t - 1], 5), a=t, n=5))
+        pairs = [(g, t), (t, g), (g, g), (g, o), (pool[3], pool[4]), (pool[3], pool[5])] + \
+            [(rng.choice(pool), rng.choice(pool)) for _ in range(3 if quick else 20)]
+        for (a, b) in pairs:
+            pool.append(prod("add", lambda: m.add(regs[a - 1], regs[b - 1]), a=a, b=b))
+        a = pool[-1]
+        pool.append(prod("double", lambda: m.double(regs[a - 1]), a=a))
+        pool.append(prod("neg", lambda: m.neg(regs[a - 1]), a=a))
+        pool.append(prod("mul", lambda: m.multiply(regs[a - 1], 7), a=a, n=7))
+        for a in pool:
+            try:
+                v = m.is_on_curve(regs[a - 1], m.b12)
+                ev(op="onc", a=a, res=1 if v is True else 0)
+            except Exception as ex:  # noqa: BLE001
+                ev(op="onc", a=a, exc=f"EXC:{type(ex).__name__}:{ex}"[:120])
+        for a in pool[:8]:
+            for b in pool[:8]:
+                ev(op="eq", a=a, b=b, res=1 if m.eq(regs[a - 1], regs[b - 1]) is True else 0)
+    except Exception:  # noqa: BLE001 -- recorded in the last event
+        pass
+    return {"name": f"{mname}_G12", "params": {"curve": curve, "group": 12, "ell": 0}, "events": events}
+
+
 def build_secp(job):
     seed, tier = job
     from py_ecc.secp256k1 import secp256k1 as s
@@ -369,10 +443,12 @@ CFG = "SPECIFICATION Spec\nINVARIANT Accepted\nINVARIANT Done\nCHECK_DEADLOCK FA
 
 def run_traces(ctx: Ctx, which, all_ells=False):
     """which: list of (module, group) or 'secp'."""
-    jobs, sjobs = [], []
+    jobs, sjobs, gjobs = [], [], []
     for k, w in enumerate(which):
         if w == "secp":
             sjobs.append((ctx.seed + 900 + k, ctx.tier))
+        elif w[1] == 12:
+            gjobs.append((w[0], ctx.seed + 800 + k, ctx.tier))
         else:
             mname, group = w
             curve = SPECS[mname][2]
@@ -381,10 +457,11 @@ def run_traces(ctx: Ctx, which, all_ells=False):
                 ells = ells[:1] if mname.startswith("optimized") else ells[-1:]
             for ell in ells:
                 jobs.append((mname, group, ell, ctx.seed + 700 + 13 * k + ell, ctx.tier))
-    with Pool(min(NCPU, max(1, len(jobs) + len(sjobs)))) as pool:
+    with Pool(min(NCPU, max(1, len(jobs) + len(sjobs) + len(gjobs)))) as pool:
         r1 = pool.map_async(build_trace, jobs, chunksize=1)
         r2 = pool.map_async(build_secp, sjobs, chunksize=1)
-        traces = r1.get() + r2.get()
+        r3 = pool.map_async(build_g12, gjobs, chunksize=1)
+        traces = r1.get() + r2.get() + r3.get()
     ctx.log(f"group traces: {len(traces)} traces, {sum(len(t['events']) for t in traces)} events from the real modules")
 
     def validate(tr):
